@@ -37,6 +37,13 @@ partial def feOf : SX → Option FE
   | .node "dl" [o, .node p []] => do pure (.del (← feOf o) p)
   | .node "dle" [o, k] => do pure (.delE (← feOf o) (← feOf k))
   | .node "dlv" [.node x []] => some (.delV x)
+  | .node "dlx" [a] => do
+    let e ← feOf a
+    match e with
+    | .cond .. => pure (.delX e)
+    | .val _ => pure (.delX e)
+    | _ => none
+  | .node "cnd" [t, a, b] => do pure (.cond (← feOf t) (← feOf a) (← feOf b))
   | .node "dfx" [o, .node p [], e] => do pure (.defFix (← feOf o) p (← feOf e))
   | .node "dro" [o, .node p [], e] => do pure (.defRO (← feOf o) p (← feOf e))
   | .node "c" [f, .node "A" as] => do pure (.call (← feOf f) (← fesOf as))
